@@ -14,8 +14,31 @@ NOT_APPLICABLE: dict = {}
 
 _VT = "virtual-time runtime monitoring: generated cases run on the real operators, recorded trace compared with an executable reference model"
 
+_DS = "controlled-schedule runtime monitoring: real threads under a deterministic scheduler (bounded-preemption enumeration + random/PCT schedules), invariant/exactly-once monitors"
+_VT_NOTE = "Trusted: harness probe sources/observers, the reference model (written from the statement), the library's virtual-time scheduler ordering (checked separately by C28)."
+_DS_NOTE = ("Trusted: the instrumented replacements of threading.Lock/RLock/Condition/Event/Thread/Timer and the virtual clock (vf/dsched.py); "
+            "serialisation is line-granular, so interleavings inside one source line are not produced; bounds: 2-3 threads, preemption bound 1-3.")
+
+
+def _vt(text, note=_VT_NOTE, technique=_VT):
+    return {"engine": "vlab", "technique": technique, "text": text, "note": note}
+
+
+def _ds(text, note=_DS_NOTE, technique=_DS):
+    return {"engine": "dsched", "technique": technique, "text": text, "note": note}
+
+
 CHECKS = {
-    "C05": {"engine": "vlab", "technique": _VT,
-            "text": "Thousands of generated (operator, parameters, timeline) cases per run are executed on the real operators in virtual time and every received notification (value, kind, virtual time) is compared type-strictly with a list-computation model. Exploration only: held on the cases observed.",
-            "note": "Trusted: the harness probe source/observer, the reference models (written from the statement), TestScheduler ordering (checked separately by C28)."},
+    "C05": _vt("Thousands of generated (operator, parameters, timeline) cases per run are executed on the real operators in virtual time and every received notification (value, kind, virtual time) is compared type-strictly with a list-computation model. Exploration only: held on the cases observed."),
+    "C06": _vt("47 aggregate operator variants x generated timelines/parameters (seeds, defaults incl. None, comparers, predicates) run in virtual time; value, termination kind and emission time compared with functools/itertools reference computations; sequence_equal against a two-source event model fed with the observed emission order. Exploration: held on the cases observed."),
+    "C07": _vt("Exhaustive enumeration of n x start x stop x step x call form (source[a:b:c], ops.slice, .slice, source[i]) inside the stated bounds, each against list(range(n))[a:b:c], on completing and error-terminated sources (thorough: cold/hot/sync).",
+               technique="virtual-time runtime monitoring: exhaustive enumeration of slice parameters, outputs compared with Python list slicing"),
+    "C25": _ds("Disposable / BooleanDisposable / ScheduledDisposable hammered by 2-3 threads calling dispose() under a deterministic scheduler: every schedule with <= 2 (thorough 3) preemptions for the small scenarios, random + PCT schedules for the larger ones, plus single-thread call histories; monitor: action-run count, is_disposed after return, inner dispose on the scheduler thread."),
+    "C26": _ds("Composite/Serial/SingleAssignment/MultipleAssignment disposables: single-thread random call histories compared call-by-call with a sequential model (items include falsy empty CompositeDisposables), and 2-3 thread programs under the deterministic scheduler (bounded-preemption enumeration of hand-written programs, random/PCT for generated ones) with exactly-once accounting and a 'disposed while held' hook inside each item's dispose()."),
+    "C40": _vt("using / finally_action / do_finally / do_* stages over generated inner timelines x dispose points (every distinct virtual time and from inside on_next) x exception positions (resource factory, observable factory, inner source, callbacks) x re-subscription; monitors count resource disposals and finally-actions per subscription and compare the do_* traces with the input trace."),
+    "C41": _vt("Contract table of the bridges (from_future with asyncio and concurrent futures, to_future, await, run(), start, to_async, from_callback) exercised with generated sequences, future outcomes (result / exception / cancellation / unsubscribe first) and callback argument lists; asyncio on a private loop; run() on real threads with values-only verdicts (watchdog = inconclusive).",
+               note="Trusted: harness probes; asyncio event loop; for run(): the default NewThreadScheduler on real threads (no timing verdicts).",
+               technique="runtime monitoring of bridge contracts: generated outcomes, observed notifications/future states compared with a contract table"),
+    "C42": _vt("Generated trees of recursive scheduling on CatchScheduler(VirtualTimeScheduler) with raises at chosen nodes and handler verdicts; monitors: handler called exactly once per raise with that exception, swallow/propagate per verdict, periodic stops after a handled raise; raise-free trees compared differentially with the bare inner scheduler (two-lane inner scheduler to expose per-class wrapper caching).",
+               technique="virtual-time runtime monitoring: generated scheduling trees with injected raises; handler-call monitor + differential against the wrapped scheduler"),
 }
